@@ -556,8 +556,11 @@ RecUp ==
 
 -----------------------------------------------------------------------------
 (* Eviction: LocustDB::evict_cache / enforce_mem_limit drop cached columns of any partition the LRU knows *)
+\* (a partition's columns enter the LRU once it is persisted and registered in the catalogue -
+\* Table::register_pending_lru; with the deviation, as soon as it is inserted into the table)
 Evict(t, id) ==
     /\ up /\ \E x \in parts[t] : x.id = id /\ ~x.cold
+    /\ "EvictBeforePersist" \in Dev \/ \E m \in ms.parts : m.t = t /\ m.id = id
     /\ parts' = [parts EXCEPT ![t] = {IF x.id = id THEN [x EXCEPT !.cold = TRUE] ELSE x : x \in @}]
     /\ UNCHANGED <<up, tabs, buffer, frozen, nextPid, nextOff, colNames, ms, walAcct, walLock, ing, fl, pendingFlush, rec, qs, disk, histv>>
 
